@@ -29,7 +29,7 @@ def run(tier, seed):
         gen.append(dict(name="C16_rand_%d_%d" % (wa, wb),
                         consts=ec.consts(ec.C12_ACTS | IO | ec.CB_ACTS, 18 if q else 30, wa=wa, wb=wb, data=("", "a", "b", "aCL", "bLa"),
                                          nsel=(0, 1, 2, 3, 9), sizes=(0, 2000), maxlen=8, cbmode=1),
-                        simulate=15 if q else 120, depth=90))
+                        simulate=15 if q else 60, depth=90))
     gen.append(dict(name="C16_known_sfhm", consts=ec.consts({"sfwrite", "sfhm"}, 1, wa=37, wb=331, nsel=(0,)), key_fn=sf_key))
     plan = {
         "mc": [("C16_mc", ec.consts(IO | {"add", "drain", "freeze", "unfreeze"}, 3, wa=2, wb=3, data=("a", "aCL"), nsel=(0, 1, 9), sizes=(0,)))],
